@@ -25,6 +25,8 @@ Node specs (lists, so they survive a JSON round trip):
   ["DI", info]                   HTMLDependency from a depinfo dict (hv/ref/deps.py)
   ["HC", kids]                   head_content(*kids)
   ["OBJ"] ["DICT"] ["SET"] ["BYTES"]   values of unsupported type (object(), {"a":1}, {1}, b"x")
+  ["NOTAG"] ["NOREPR"]           objects whose class sets tagify / _repr_html_ to None (not tag nodes)
+  ["FALSY", which]               unsupported values that are falsy (b"", set(), {}, Decimal(0), Fraction(0), 0j, range(0))
   ["GEN", kids]                  generator yielding the children
   ["ES", name, ws, attrs, kids]  element of a user SUBCLASS of Tag (no overrides, one extra attribute)
   ["TLX", kids]                  user subclass of TagList carrying an extra instance attribute
@@ -57,7 +59,35 @@ class _Money(float):
         return "$" + format(float(self), ".2f")
 
 
+class _MoneyR(float):
+    """a float subclass with its own str() AND a rich repr: as a child it is a NUMBER (its str() text)."""
+
+    def __str__(self):
+        return "$" + format(float(self), ".2f")
+
+    def _repr_html_(self):
+        return "<b>money</b>"
+
+
+class _LevelT(_enum.IntEnum):
+    """an IntEnum whose members also have a tagify() method: as children they are numbers."""
+    HIGH = 3
+
+    def tagify(self):
+        return Tag("span", "level")
+
+
+class NoTagify:
+    """the protocol method is explicitly disabled: not a tag node"""
+    tagify = None
+
+
+class NoRepr:
+    _repr_html_ = None
+
+
 SPECIAL_NUMBERS = {
+    "floatsub-repr": _MoneyR(2.5), "intenum-tagify": _LevelT.HIGH,
     "intenum": _Level.HIGH, "intflag": _Perm.R, "floatsub": _Money(2.5), "-0.0": -0.0,
     "nan": float("nan"), "inf": float("inf"), "-inf": float("-inf"),
     "1e21": 1e21, "10**30": 10 ** 30, "True": True, "False": False,
@@ -300,6 +330,31 @@ def build_jsx_value(v):
         return build(v)
     if isinstance(v, list) and v and v[0] == "FLT":
         return float(v[1])
+    if isinstance(v, list) and v and v[0] == "SUBV":
+        # prop values whose class is a SUBCLASS of dict / list / tuple / int / float / str
+        import collections
+        kind, payload = v[1], v[2]
+        if kind == "ordereddict":
+            return collections.OrderedDict((k, build_jsx_value(x)) for k, x in payload.items())
+        if kind == "defaultdict":
+            d = collections.defaultdict(list)
+            d.update({k: build_jsx_value(x) for k, x in payload.items()})
+            return d
+        if kind == "namedtuple":
+            return PairNT(build_jsx_value(payload[0]), build_jsx_value(payload[1]))
+        if kind == "listsub":
+            return SubList(build_jsx_value(x) for x in payload)
+        if kind == "intenum":
+            return _Level.HIGH
+        if kind == "floatsub":
+            return _Money(2.5)
+        if kind == "jsxsub":
+            from htmltools._jsx import jsx as _jsx
+
+            class MyExpr(_jsx):
+                pass
+            return MyExpr(payload)
+        raise ValueError(v)
     if isinstance(v, list) and v and v[0] == "TUP":
         return tuple(build_jsx_value(x) for x in v[1])
     if isinstance(v, list) and v and v[0] == "LIST":
@@ -374,6 +429,15 @@ def build(spec: Any) -> Any:
         return tuple(build(c) for c in spec[1])
     if k == "NONE":
         return None
+    if k == "NOTAG":
+        return NoTagify()
+    if k == "NOREPR":
+        return NoRepr()
+    if k == "FALSY":
+        import decimal
+        import fractions
+        return {"bytes0": b"", "set0": set(), "dict0": {}, "dec0": decimal.Decimal("0"), "frac0": fractions.Fraction(0),
+                "complex0": 0j, "range0": range(0), "bytearray0": bytearray()}[spec[1]]
     if k == "OBJ":
         return object()
     if k == "DICT":
